@@ -108,10 +108,10 @@ SENSITIVITY = [
     "ownership by Name.startswith('pywbem...:' + id) instead of the anchored pattern -> history/owned-list:add_server:dest:claims-instance-of-other-manager, ...:claims-perm-instance, ...:claims-foreign-instance (same for filter; idpairs too)",
     '_create_subscription() not appending to the owned list -> history/owned-list:add_subs:sub:lacks-own-instance, history/outcome:add_subscriptions:expected-ok-got-CIMError11',
     'permanent subscription on an owned destination no longer refused -> history/outcome:add_subscriptions:expected-ValueError-got-ok',
-    'remove_destinations() not updating the local list (path compared with `is`) -> history/owned-list:rm_dests:dest:claims-unknown-instance (1 hit: only visible after a restart)',
+    'remove_destinations() not updating the local list (path compared with `is`) -> history/owned-list:rm_dests:dest:claims-unknown-instance (visible after a restart, when the path objects differ)',
     'discovery: subscription owned only if its filter is owned -> history/owned-list:add_server:sub:lacks-own-instance, idpairs/owned-list:scenario:sub:lacks-own-instance',
     "discovery pattern ':.*$' instead of ':[^:]*$' -> history/owned-list:add_server:filter:claims-perm-instance, ...:dest:claims-perm-instance, idpairs/owned-list:add_server:filter:claims-perm-instance",
-    'owned-destination reuse ignoring PersistenceType -> history/add_dest:Name-is-not-the-documented-marker (now reported as add_dest:returned-an-existing-instance-instead-of-creating-one)',
+    'owned-destination reuse ignoring PersistenceType -> history/add_dest:returned-an-existing-instance-instead-of-creating-one',
     'discovery patterns compiled with re.I -> history/owned-list:add_server:dest:claims-instance-of-other-manager, idpairs/owned-list:add_server:dest:claims-instance-of-other-manager',
     'remove_subscriptions() not updating the local list -> history/owned-list:rm_subs:sub:claims-unknown-instance',
     "filter marker built as 'pywbemfilter:<filter id>:<manager id>' -> history/add_filter:Name-is-not-the-documented-marker, idpairs/add_filter:Name-is-not-the-documented-marker",
